@@ -55,6 +55,23 @@ CLAIMS = {
              "below-threshold drop (x2, keyed by whether the recogniser is live). Does not decide reply contents.",
         technique="CFG path search with exempt edges (consume=>reply pairing), dominance, constant/literal agreement from evaluated MIR constants",
         ref="DESIGN.md §3 C04"),
+    "C17": dict(
+        text="Decides structural clauses of C17 by an effect analysis of the CommandExecutor handlers: R17.1 every variant that "
+             "Command::is_read_only can classify read-only dispatches only to handlers without a visible write site in their "
+             "transitive closure; R17.2 in every handler (and inline dispatch arm) no error reply is reachable from a write site "
+             "(fallible data-structure methods that validate before mutating are summarised); R17.4 ACL-denied/parse-error paths "
+             "never reach state.execute. Does not decide scripts nor value-correlated error->write orders.",
+        technique="MIR effect analysis (write-site classification by receiver provenance, transitive writer set, CFG reachability write->error), enum dispatch tables",
+        ref="DESIGN.md §3 C17"),
+    "C01": dict(
+        text="Decides the structural sentences of C01 (expiry visibility, map consistency, empty collections): R01.1 deadline "
+             "comparisons are `deadline <= now`; R01.2 every keyed read of data is dominated by is_expired/get_value on the same "
+             "key, whole-map reads filter by is_expired; R01.3 data.remove pairs with expirations.remove on all paths; R01.4 "
+             "whole-value inserts update the TTL or are in the frozen keep-TTL table behind a purge; R01.5 shrinking a stored "
+             "collection is followed by an emptiness test + removal; R01.7 seconds/milliseconds sibling commands have equal "
+             "decision skeletons. Does not decide equality of replies with Redis.",
+        technique="MIR provenance/dominance pairing rules over all executor handlers, path search with exempt edges, sibling CFG-skeleton comparison",
+        ref="DESIGN.md §3 C01"),
 }
 
 PENDING_REASON = "check not built yet (build in progress; DESIGN.md §3 lists the planned structural clauses)"
